@@ -9,6 +9,7 @@ import (
 	"os"
 	"os/exec"
 	"path/filepath"
+	"runtime"
 	"slices"
 	"sort"
 	"strconv"
@@ -191,7 +192,11 @@ func runChildW(dir, replay string, quiet bool, stall time.Duration, hard ...time
 	marker := filepath.Join(dir, "finished")
 	_ = os.Remove(marker)
 	_ = os.Remove(filepath.Join(dir, "beat"))
+	// the child dies with the supervisor (see Sharded for the pinned thread)
+	runtime.LockOSThread()
+	defer runtime.UnlockOSThread()
 	cmd := exec.Command(os.Args[0], os.Args[1:]...)
+	cmd.SysProcAttr = &syscall.SysProcAttr{Pdeathsig: syscall.SIGKILL}
 	cmd.Env = append(os.Environ(), envChild+"=1", envInflight+"="+dir)
 	if replay != "" {
 		cmd.Env = append(cmd.Env, "VERIF_REPLAY="+replay)
